@@ -1,6 +1,7 @@
 package streams
 
 import (
+	"bytes"
 	"fmt"
 	"math"
 	"math/big"
@@ -115,6 +116,59 @@ func exactCmp(a, b interface{}) (int, bool) {
 		return 0, true
 	}
 	return qa.Cmp(qb), true
+}
+
+// scalarOrder is an independent statement of the documented order inside the scalar classes other than numbers:
+// timestamps by (T, I), dates by their millisecond value, false < true, strings / ObjectIDs bytewise,
+// binaries by (length, subtype, bytes).
+func scalarOrder(a, b interface{}) (int, bool) {
+	sign := func(less, greater bool) int {
+		switch {
+		case less:
+			return -1
+		case greater:
+			return 1
+		}
+		return 0
+	}
+	switch x := a.(type) {
+	case primitive.Timestamp:
+		if y, ok := b.(primitive.Timestamp); ok {
+			if x.T != y.T {
+				return sign(x.T < y.T, x.T > y.T), true
+			}
+			return sign(x.I < y.I, x.I > y.I), true
+		}
+	case primitive.DateTime:
+		if y, ok := b.(primitive.DateTime); ok {
+			return sign(x < y, x > y), true
+		}
+	case bool:
+		if y, ok := b.(bool); ok {
+			return sign(!x && y, x && !y), true
+		}
+	case string:
+		if y, ok := b.(string); ok {
+			return sign(x < y, x > y), true
+		}
+	case primitive.ObjectID:
+		if y, ok := b.(primitive.ObjectID); ok {
+			c := bytes.Compare(x[:], y[:])
+			return sign(c < 0, c > 0), true
+		}
+	case primitive.Binary:
+		if y, ok := b.(primitive.Binary); ok {
+			if len(x.Data) != len(y.Data) {
+				return sign(len(x.Data) < len(y.Data), len(x.Data) > len(y.Data)), true
+			}
+			if x.Subtype != y.Subtype {
+				return sign(x.Subtype < y.Subtype, x.Subtype > y.Subtype), true
+			}
+			c := bytes.Compare(x.Data, y.Data)
+			return sign(c < 0, c > 0), true
+		}
+	}
+	return 0, false
 }
 
 func typeTag(v interface{}) string {
@@ -283,6 +337,9 @@ func init() {
 				ra, rb := classRank[typeTag(a)], classRank[typeTag(b)]
 				if ra < rb && ab != -1 || ra > rb && ab != 1 {
 					add("class order violated", "rank:"+typeTag(a)+","+typeTag(b))
+				}
+				if want, ok := scalarOrder(a, b); ok && want != ab {
+					add(fmt.Sprintf("order inside the class not as documented: got %d want %d", ab, want), "order:"+typeTag(a))
 				}
 				if ra == 1 && rb == 1 {
 					if want, ok := exactCmp(a, b); ok && want != ab {
